@@ -797,6 +797,9 @@ func genHash(r *hlib.Rand) []byte {
 }
 
 func genSeq(r *hlib.Rand) uint64 {
+	if r.Chance(1, 6) {
+		return boundarySeqs[r.Intn(len(boundarySeqs))]
+	}
 	switch r.Intn(8) {
 	case 0:
 		return 0
@@ -1258,6 +1261,9 @@ func genIter(r *hlib.Rand) IterSpec {
 		return out
 	}
 	s.Commitments, s.Acks, s.Receipts = fam(), fam(), fam()
+	if r.Chance(1, 2) {
+		s.PRelayers = fam()
+	}
 	// by-path iteration: paths of written commitments, paths whose names extend / are cut from them, unrelated paths
 	for i, n := 0, r.Intn(4); i < n; i++ {
 		a, b := hlib.Hex([]byte(chain())), hlib.Hex([]byte(chain()))
